@@ -24,7 +24,7 @@ import corpus
 from builders import c08b as B
 from run import Broken, Violation
 
-GEN = ["Encryption", "Wrappers", "PdfCrypt"]
+GEN = ["Encryption", "Wrappers", "PdfCrypt", "Aes", "PyAes", "AesState"]
 RULE = ("containers built by reference writers (OLE2, BIFF, ZIP with chosen flag bits / methods, 7z coder chains, ODF / EPUB "
         "packages, pypdf-written PDFs) as encrypted/plain pairs: one mechanism switched at a time (marker stream name x case, "
         "FILEPASS at every record index, FIB bit 8 among random flag words, flag bit 0 per member incl. hidden and directory "
@@ -34,7 +34,11 @@ RULE = ("containers built by reference writers (OLE2, BIFF, ZIP with chosen flag
         "the PDFs additionally read as one shuffled sequence in one process; V4 / V5 PDFs whose /Encrypt dictionary has every legal "
         "crypt-filter shape: filter name /StdCF | other | two filters, /StmF x /StrF in {RC4, AES, /Identity, absent}, /EFF, unused decoy "
         "filters named /StdCF with the other method, indirect /CF, stray /CF below V4 — each with the empty and a real user password, "
-        "the data encrypted with exactly the declared methods; EVERY PDF verdict judged in a fresh interpreter as well) + re-wrapped fixtures + the protected fixtures + a malformed stream (truncated / bit-flipped / random). "
+        "the data encrypted with exactly the declared methods; EVERY PDF verdict judged in a fresh interpreter as well; HOW the container is encrypted varied "
+        "independently of THAT it is: encryption.xml entries drawn from real ciphers x font obfuscation in every order with key info / compression / nesting / prefix "
+        "layouts, ODF encryption-data in 7 spellings, FILEPASS with every payload kind, ZIP members under ZipCrypto / strong encryption / WinZip AES / odd methods; "
+        "empty-password PDFs with one page per unfiltered content-stream length 0..32, every residue mod 16, larger multiples of 16; the patched CryptAES on every "
+        "object length 0..80) + re-wrapped fixtures + the protected fixtures + a malformed stream (truncated / bit-flipped / random). "
         "distinct = distinct (kind, container facts); non-trivial = the container parses far enough for the detector to look at it")
 ASSUMPTIONS = [
     "olefile: bytes -> root directory entries and stream contents; exists() is case-insensitive on the entry name",
@@ -137,7 +141,8 @@ def abs_xml(raw: bytes):
         return None
 
     def conv(e):
-        return {"t": e.tag if isinstance(e.tag, str) else "<non-element>", "c": [conv(c) for c in e if isinstance(c.tag, str)]}
+        return {"t": e.tag if isinstance(e.tag, str) else "<non-element>", "a": [[str(k), str(v)] for k, v in e.attrib.items()],
+                "x": (e.text or "").strip()[:200], "c": [conv(c) for c in e if isinstance(c.tag, str)]}
 
     return conv(root)
 
@@ -427,6 +432,16 @@ def gen_ole_cases(ctx):
     return cases
 
 
+def _filepass_payloads(rng):
+    """[(label, payload)] — every kind of FILEPASS record [MS-XLS] §2.4.117 knows: XOR obfuscation (wEncryptionType 0; BIFF5: key and
+    verifier only), RC4 (type 1, version 1.1), RC4 CryptoAPI (type 1, version 2/3/4 . 2), and degenerate payloads.  A workbook with
+    ANY of them cannot be read without the password (XOR "obfuscation" included: every cell record is scrambled)."""
+    r = lambda k: bytes(rng.randrange(256) for _ in range(k))
+    return [("xor-obfuscation", b"\x00\x00" + r(4)), ("biff5-xor", r(4)), ("rc4", bytes([1, 0, 1, 0, 1, 0]) + r(48)),
+            ("rc4-cryptoapi-v2", bytes([1, 0, 2, 0, 2, 0]) + r(60)), ("rc4-cryptoapi-v4", bytes([1, 0, 4, 0, 2, 0]) + r(60)),
+            ("empty", b""), ("zeros", bytes(6)), ("unknown-type", b"\x07\x00" + r(10))]
+
+
 def _rand_records(rng, n, with_filepass_at=None, rid=0x2F):
     recs = [(0x0809, bytes([0, 6, 5, 0]) + bytes(12))]
     pool = [0x0042, 0x003D, 0x0022, 0x000E, 0x00FC, 0x003C, 0x0031, 0x002E, 0x0030, 0x012F, 0x2F00, 0x002F + 0x100]
@@ -462,6 +477,15 @@ def gen_xls_cases(ctx):
             fp = B.biff([(0x2F, bytes([1, 0, 1, 0, 1, 0]) + bytes(rng.randrange(256) for _ in range(48)))])
             cases.append(Case("xls", "xls", B.ole2(others + [(wbname, wb[:o] + fp + wb[o:])]), "encrypted", "xls.missed.filepass-position",
                               f"fixture workbook with FILEPASS inserted at stream offset {o} (record index {offs.index(o) if o in offs else len(offs)})"))
+        # every KIND of FILEPASS payload right after BOF (where Excel writes it) and deep in the stream
+        for label, payload in _filepass_payloads(rng):
+            for o in (offs[1], rng.choice(offs[2:])):
+                cases.append(Case("xls", "xls", B.ole2(others + [(wbname, wb[:o] + B.biff([(0x2F, payload)]) + wb[o:])]), "encrypted",
+                                  f"xls.missed.filepass-kind.{label}", f"fixture workbook with a {label} FILEPASS record ({len(payload)} payload bytes) at offset {o}"))
+    for label, payload in _filepass_payloads(rng):
+        recs = [(0x0809, bytes([0, 6, 5, 0]) + bytes(12)), (0x2F, payload), (0x0042, b"\xb0\x04"), (0x000A, b"")]
+        cases.append(Case("xls", "xls", B.ole2([("Workbook", B.biff(recs))]), "encrypted", f"xls.missed.filepass-kind.{label}",
+                          f"BOF, {label} FILEPASS ({len(payload)} payload bytes), CODEPAGE, EOF"))
     # FILEPASS as the very last record, header only (the scan's boundary `offset + 4 <= len`)
     for pre in (0, 1, 5):
         recs = _rand_records(rng, pre)
@@ -565,6 +589,19 @@ def gen_zip_cases(ctx):
             ms2 = [dict(m, flags=0) for m in ms]
             cases.append(Case("zip", "zip", B.zip_members(ms2), "plain", "zip.false-positive",
                               f"{k} plain members and a zero-length plain member at index {pos}"))
+    # HOW the member is encrypted: traditional PKWARE (flag bit 0), strong encryption (bits 0 + 6), WinZip AES (bit 0, method 99),
+    # encrypted + data descriptor, encrypted deflate / deflate64 / LZMA / PPMd — at each position among plain members
+    for label, fl, meth, defl in (("zipcrypto-stored", 1, None, False), ("zipcrypto-deflate", 1, None, True), ("strong-encryption", 0x41, None, True),
+                                  ("winzip-aes", 1, 99, False), ("data-descriptor", 0x09, None, False), ("deflate64", 1, 9, False),
+                                  ("lzma", 1, 14, False), ("ppmd", 1, 98, False), ("utf8-name", 0x801, None, False), ("central-directory-encrypted", 0x2041, None, False)):
+        for pos in range(3):
+            ms = [{"name": f"p{i}.txt", "data": f"{_TOKEN} plain {i}".encode()} for i in range(2)]
+            m = {"name": "secret.txt", "data": bytes(rng.randrange(256) for _ in range(40)), "flags": fl, "deflate": defl}
+            if meth is not None:
+                m["method"] = meth
+            ms.insert(pos, m)
+            cases.append(Case("zip", "zip", B.zip_members(ms), "encrypted", f"zip.missed.flag-bit0.{label}",
+                              f"member {pos} of 3 encrypted ({label}: flags {fl:#x}, method {meth if meth is not None else ('deflate' if defl else 'stored')})"))
     for i in range(ctx.n(200, 2500)):
         members, enc_idx = _rand_zip(rng, force=("enc" if i % 3 == 0 else "plain" if i % 3 == 1 else None))
         data = B.zip_members(members)
@@ -667,6 +704,14 @@ def _manifest_variants(rng, kind):
                     f"content.xml entry carries encryption-data (prefix {prefix!r})", []))
         out.append((M(kind, base, prefix=prefix, enc_for=["styles.xml", "meta.xml"]), "encrypted", "odf.missed.encryption-data-element",
                     f"two entries carry encryption-data (prefix {prefix!r})", []))
+    # HOW the member is encrypted (ODF 1.0 Blowfish, ODF 1.2 AES-256, ODF 1.3 OpenPGP / AES-GCM, a bare element, no checksum,
+    # an algorithm nobody knows) must not matter: the package is encrypted all the same
+    for style in B.ODF_ENC_STYLES:
+        if style == "blowfish":
+            continue
+        for which in (["content.xml"], ["meta.xml"], ["content.xml", "styles.xml", "meta.xml"]):
+            out.append((M(kind, base, enc_for=which, enc_style=style, prefix=rng.choice(["manifest", "m", ""])), "encrypted",
+                        f"odf.missed.encryption-data-element.{style}", f"{which} carry encryption-data in the {style!r} spelling", []))
     for nm in ("Pictures/encryption-data.png", "encryption-data", "Object 1/manifest:algorithm.bin", "notes/manifest:encrypted.txt",
                "Pictures/my-encryption-data-chart.svg"):
         out.append((M(kind, base + [nm]), "plain", "odf.false-positive.member-name", f"plain package with a member named {nm!r}", [(nm, b"\x89PNG\r\n")]))
@@ -704,6 +749,48 @@ def gen_epub_cases(ctx):
             for prefix in ("enc", "", "e"):
                 cases.append(Case("epub", "epub", B.epub_package(_TOKEN, encryption_xml=E(n, depth=depth, prefix=prefix)), "encrypted",
                                   "epub.missed.encrypted-data", f"encryption.xml with {n} EncryptedData at depth {depth + 1} (prefix {prefix!r})"))
+    # WHAT the entries of encryption.xml say.  ground truth by construction: at least one resource is enciphered with a real
+    # cipher (a key the reader does not have) => DRM-protected, whatever else the file declares — font-obfuscation entries
+    # before / after / between, key information, compression properties, an unknown or absent EncryptionMethod.
+    # encryption.xml with font-obfuscation entries ONLY: the fonts are mangled, the text is not — no claim either way
+    # (the code counts it as DRM; see manifest note).
+    real, font = B.EPUB_ALG_REAL, B.EPUB_ALG_FONT
+
+    def ent(alg, i=0, **kw):
+        d = {"alg": alg, "uri": f"OEBPS/fonts/f{i}.otf" if alg in font else ("OEBPS/c1.xhtml" if i == 0 else f"OEBPS/img{i}.jpg")}
+        d.update(kw)
+        return d
+
+    def addx(entries, truth, key, why, **kw):
+        cases.append(Case("epub", "epub", B.epub_package(_TOKEN, encryption_xml=B.epub_encryption_entries(entries, **kw)), truth, key, why))
+
+    for a in real:
+        addx([ent(a)], "encrypted", "epub.missed.encrypted-data.method", f"one EncryptedData, EncryptionMethod {a!r}")
+    for f in font:
+        addx([ent(f)], None, "epub.synthetic.font-obfuscation-only", f"font obfuscation only ({f})")
+        for a in (real[0], rng.choice(real[1:])):
+            for order, es in (("font first", [ent(f), ent(a)]), ("font last", [ent(a), ent(f, 1)]),
+                              ("font between", [ent(a), ent(f, 1), ent(rng.choice(real), 2)])):
+                addx(es, "encrypted", "epub.missed.encrypted-data.mixed-with-font-obfuscation",
+                     f"DRM entries ({a!r}) and a font-obfuscation entry ({f}), {order}")
+    addx([ent(font[0]), ent(font[1], 1), ent(real[0])], "encrypted", "epub.missed.encrypted-data.mixed-with-font-obfuscation",
+         "both font-obfuscation methods and one AES entry")
+    for _ in range(ctx.n(12, 120)):
+        k = rng.randint(1, 5)
+        es = [ent(rng.choice(real + font + font), i, keyinfo=rng.choice([None, "name", "key", "retrieval"]), compression=rng.random() < 0.3,
+                  wrap=rng.random() < 0.15) for i in range(k)]
+        any_real = any(e["alg"] not in font for e in es)
+        pre, cpre = rng.choice([("enc", ""), ("", "ocf"), ("e", "c"), ("xenc", "")])
+        addx(es, "encrypted" if any_real else None,
+             "epub.missed.encrypted-data.mixed-with-font-obfuscation" if any_real and any(e["alg"] in font for e in es) else
+             "epub.missed.encrypted-data.method" if any_real else "epub.synthetic.font-obfuscation-only",
+             "encryption.xml entries " + ", ".join(f"[{e['alg']} key={e.get('keyinfo')}{' compressed' if e.get('compression') else ''}"
+                                                   f"{' nested' if e.get('wrap') else ''}]" for e in es), prefix=pre, container_prefix=cpre)
+    # the same encryption.xml in a package that ALSO has rights.xml / whose encryption.xml is a decoy outside META-INF
+    addx([ent(font[0]), ent(real[0])], "encrypted", "epub.missed.encrypted-data.mixed-with-font-obfuscation", "font + AES, prefix-less EncryptedData",
+         prefix="", container_prefix="c")
+    cases.append(Case("epub", "epub", B.epub_package(_TOKEN, encryption_xml=B.epub_encryption_entries([ent(font[0])]), rights_xml=b"<rights/>"),
+                      "encrypted", "epub.missed.rights-xml", "font-obfuscation-only encryption.xml next to META-INF/rights.xml"))
     cases.append(Case("epub", "epub", B.epub_package(_TOKEN, rights_xml=b"<rights/>"), "encrypted", "epub.missed.rights-xml", "META-INF/rights.xml present"))
     cases.append(Case("epub", "epub", B.epub_package(_TOKEN, rights_xml=b""), "encrypted", "epub.missed.rights-xml", "empty META-INF/rights.xml present"))
     cases.append(Case("epub", "epub", B.epub_package(_TOKEN, encryption_xml=E(0), rights_xml=b"<r/>"), "encrypted", "epub.missed.rights-xml", "rights.xml and empty encryption.xml"))
@@ -867,6 +954,39 @@ def gen_pdf_shape_cases(ctx):
     return cases
 
 
+# ---- object LENGTHS.  Every string / stream of an AES document goes through the CryptAES.decrypt the library patches into pypdf
+# (IV split, CBC, PKCS#7 unpadding): a plaintext of 16k bytes carries a whole padding block, one shorter than a block sits in a
+# single block, an empty one is padding only.  Glue that is right for "most" lengths corrupts exactly those objects, and only an
+# UNCOMPRESSED stream shows it (zlib ignores trailing garbage).  One page per content-stream length: nothing, less than a block,
+# one block, every residue mod 16 around 3 blocks, larger multiples — closed by a newline and closed by the operator itself.
+_PDF_LENGTHS = [0, 1, 3, 15, 16, 17, 31, 32] + list(range(48, 64)) + [64, 80, 96, 112, 256]
+
+
+def gen_pdf_length_cases(ctx):
+    rng = ctx.rng
+    cases = []
+    algs = ["RC4-128", "AES-128", "AES-256-R5"] + (["AES-256"] if ctx.thorough else [])
+    pw = rng.choice(["pw123", "x"])
+    with _aes_for_writing():
+        for tail, tl in ((b"\n", "newline-terminated"), (b"", "operator-terminated")):
+            doc_id = bytes(rng.randrange(256) for _ in range(16))
+            lengths = _PDF_LENGTHS if tail else [n for n in _PDF_LENGTHS if n >= 48]
+            plain = B.pdf_plain_lengths(lengths, doc_id, tail=tail)
+            cases.append(Case("pdf", "pdf", plain, "plain", "pdf.false-positive.unencrypted",
+                              f"unencrypted PDF, {len(lengths)} pages with unfiltered content streams of {lengths} bytes ({tl})", {"original": _b64(plain)}))
+            for alg in algs:
+                if alg == "AES-256" and not tail:
+                    continue
+                data = B.pdf_encrypt(plain, "", _PDF_OWNER_SECRET, alg, doc_id)
+                cases.append(Case("pdf", "pdf", data, "plain", f"pdf.false-positive.empty-password.content-length.{alg}",
+                                  f"{alg}, EMPTY user password, {len(lengths)} pages whose unfiltered content streams are {lengths} bytes long ({tl})",
+                                  {"original": _b64(plain)}))
+            data = B.pdf_encrypt(plain, pw, _PDF_OWNER_SECRET, "AES-128", doc_id)
+            cases.append(Case("pdf", "pdf", data, "encrypted", "pdf.missed.password.content-length.AES-128",
+                              f"AES-128, user password {pw!r}, pages with unfiltered content streams of {lengths} bytes ({tl})"))
+    return cases
+
+
 def gen_fixture_cases(ctx):
     cases = []
     for fn, ext, data in _protected_fixtures():
@@ -1005,7 +1125,12 @@ def _model_requests(case):
             real = bool(EP._is_epub_encrypted(ctx_))
         finally:
             ctx_.close()
-        return dict({"op": "c08.epub"}, **a), {"enc": real}, (k, repr(a)[:3000])
+        realans = {"enc": real}
+        if a["enc"] is not None:     # the abstraction itself: the Algorithm attributes the model reads are those ElementTree shows
+            def _algs(n):
+                return [v for k_, v in n["a"] if k_ == "Algorithm"] + [x for c_ in n["c"] for x in _algs(c_)]
+            realans["algs"] = _algs(a["enc"])
+        return dict({"op": "c08.epub"}, **a), realans, (k, repr(a)[:3000])
     if k == "pdf":
         from sharepoint2text.parsing.extractors.pdf.pdf_extractor import read_pdf
         _reset_pypdf_aes()
@@ -1132,6 +1257,56 @@ def _pdf_open_correspondence(ctx, pdfs):
     return broken
 
 
+def _pdf_glue_correspondence(ctx):
+    """the CryptAES pypdf ends up with after the library patched it, on objects of EVERY length: ciphertexts written by the harness
+    (IV || CBC(PKCS#7(m)) with the AES primitives, PDF 32000-1 §7.6.2) must decrypt to m (spec), and as the Lean model of the glue
+    (S2T.Aes.cryptAesDecrypt, driver op c20.crypt) says.  Lengths 0..80 and around 256; messages whose own tail looks like padding."""
+    from sharepoint2text.parsing.extractors.pdf import _pypdf_aes_fallback as F
+    rng = ctx.rng
+    broken = []
+    _reset_pypdf_aes()
+    try:
+        F.patch_pypdf_fallback_aes()
+        fb, providers, enc = _pypdf_mods()
+        cls = enc.CryptAES if hasattr(enc, "CryptAES") else fb.CryptAES
+        msgs = []
+        for n in list(range(0, 81)) + [255, 256, 257]:
+            msgs.append(bytes(rng.randrange(256) for _ in range(n)))
+            if n:
+                k = rng.choice([1, 2, 15, 16, n % 16 or 16])
+                msgs.append((bytes(rng.randrange(256) for _ in range(n)) + bytes([k]) * k)[-n:])      # pad-like tail
+        reqs, gots = [], []
+        for m in msgs:
+            key = bytes(rng.randrange(256) for _ in range(rng.choice([16, 32])))
+            iv = bytes(rng.randrange(256) for _ in range(16))
+            pad = 16 - len(m) % 16
+            c = iv + F.aes_cbc_encrypt(key, iv, m + bytes([pad]) * pad)
+            try:
+                got = bytes(cls(key).decrypt(c))
+                ans = {"ok": list(got)}
+            except Exception as e:  # noqa
+                got, ans = None, {"err": type(e).__name__}
+            ctx.case(("pdfglue", len(m), m[-1:].hex()))
+            ctx.count(f"pdfglue/len%16={len(m) % 16}")
+            if got != m and len(broken) < 3:
+                broken.append(Broken("correspondence", "c08.pdfaes.glue",
+                                     f"CryptAES.decrypt (as patched into pypdf) of IV || CBC(PKCS#7(m)) for a message of {len(m)} bytes gives "
+                                     f"{'%d bytes ending in %s' % (len(got), got[-20:].hex()) if got is not None else ans} instead of m (tail {m[-8:].hex()})"))
+            reqs.append({"op": "c20.crypt", "enc": False, "key": list(key), "data": list(c)})
+            gots.append(ans)
+        outs = ctx.drive(reqs)
+        bad = [(r, g, o) for r, g, o in zip(reqs, gots, outs) if ("ok" in g) != ("ok" in o) or g.get("ok") != o.get("ok")]
+        if bad:
+            r, g, o = bad[0]
+            broken.append(Broken("correspondence", "c08.pdfaes.glue-model",
+                                 f"{len(bad)} of {len(reqs)} ciphertexts: CryptAES.decrypt and the Lean model of the glue disagree, first on a stored object of "
+                                 f"{len(r['data'])} bytes: impl={str(g)[:120]} model={str(o)[:120]}"))
+        ctx.coverage["pdf_glue_lengths"] = len(msgs)
+    finally:
+        _reset_pypdf_aes()
+    return broken
+
+
 # ---- every PDF verdict in a FRESH interpreter.  The library's AES support is a process-wide, sticky patch (and a change may add
 # state of its own that `_reset_pypdf_aes` knows nothing about), so a verdict taken in this long-lived process — after dozens of
 # other PDFs — is evidence only if a fresh process gives the same one.
@@ -1208,7 +1383,7 @@ def _validate_builders():
 
 def _all_cases(ctx):
     cases = []
-    for g in (gen_fixture_cases, gen_ole_cases, gen_xls_cases, gen_doc_cases, gen_zip_cases, gen_sz_cases, gen_odf_cases, gen_epub_cases, gen_pdf_cases, gen_pdf_shape_cases):
+    for g in (gen_fixture_cases, gen_ole_cases, gen_xls_cases, gen_doc_cases, gen_zip_cases, gen_sz_cases, gen_odf_cases, gen_epub_cases, gen_pdf_cases, gen_pdf_shape_cases, gen_pdf_length_cases):
         cases += g(ctx)
     return cases
 
@@ -1257,6 +1432,7 @@ def correspondence(ctx):
     violations += _oracle(ctx, sub, entries=("read_file",), cli_every=ctx.n(5, 2))
     violations += _pdf_sequence_oracle(ctx, [c for c in claimed if c.kind == "pdf"])
     broken += _pdf_open_correspondence(ctx, [c for c in cases if c.kind == "pdf" and c.key != "malformed"])
+    broken += _pdf_glue_correspondence(ctx)
     failed = {v.key for v in violations}
     violations += [v for v in _pdf_fresh_oracle(ctx, [c for c in claimed if c.kind == "pdf"], failed) if v.key not in failed]
     return {"broken": broken, "violations": violations}
@@ -1405,7 +1581,35 @@ def _check_case(c: Case, entry: str, td: str, fresh: bool = True):
             if e is not None or e0 is not None:
                 return f"empty-password PDF does not extract ({type(e).__name__ if e else None}) although the original does ({type(e0).__name__ if e0 else 'ok'})"
             if _pdf_texts(res) != _pdf_texts(orig):
-                return f"empty-password PDF extracts {_pdf_texts(res)!r}, its unencrypted original {_pdf_texts(orig)!r}"
+                a, b = _pdf_texts(res), _pdf_texts(orig)
+                if len(a) == len(b) == 1 and len(a[0]) == len(b[0]) > 2:
+                    diff = [i for i, (x, y) in enumerate(zip(a[0], b[0])) if x != y]
+                    return (f"empty-password PDF extracts other text than its unencrypted original on page(s) {[i + 1 for i in diff][:20]} of {len(b[0])}: "
+                            f"page {diff[0] + 1} gives {a[0][diff[0]][:80]!r}, the original {b[0][diff[0]][:80]!r}")
+                return f"empty-password PDF extracts {a!r}, its unencrypted original {b!r}"
+            if [[p.tables for p in r.pages] for r in res] != [[p.tables for p in r.pages] for r in orig]:
+                return "empty-password PDF yields other tables than its unencrypted original"
+            if [[len(p.images) for p in r.pages] for r in res] != [[len(p.images) for p in r.pages] for r in orig]:
+                return "empty-password PDF yields another number of images per page than its unencrypted original"
+    return None
+
+
+def _shrink_lengths(c: Case, entry: str, td: str):
+    """a failing many-page content-length document -> (case, message) of the first ONE-page document (one stream length) that fails too"""
+    alg = c.key.rsplit(".content-length.", 1)[1]
+    tail = b"" if "operator-terminated" in c.why else b"\n"
+    for n in _PDF_LENGTHS:
+        try:
+            with _aes_for_writing():
+                plain = B.pdf_plain_lengths([n], None, tail=tail)
+                data = B.pdf_encrypt(plain, "", _PDF_OWNER_SECRET, alg, None)
+            one = Case("pdf", "pdf", data, "plain", c.key, f"{alg}, EMPTY user password, ONE page whose unfiltered content stream is {n} bytes long "
+                                                          f"({n} mod 16 = {n % 16}; {'operator' if not tail else 'newline'}-terminated)", {"original": _b64(plain)})
+            m = _check_case(one, entry, td)
+        except Exception:  # noqa
+            continue
+        if m:
+            return one, m
     return None
 
 
@@ -1425,6 +1629,10 @@ def _oracle(ctx, cases, entries=("direct", "read_file"), cli_every=3):
                 ctx.count(f"oracle/{entry}/{c.truth}")
                 if msg and c.key not in seen:
                     seen.add(c.key)
+                    if c.kind == "pdf" and entry != "cli" and ".content-length." in c.key and c.truth == "plain":
+                        sm = _shrink_lengths(c, entry, td)
+                        if sm:
+                            c, msg = sm
                     if c.kind == "pdf" and entry != "cli":
                         out.append(_explain_pdf_failure(c, entry, msg))
                     else:
